@@ -297,8 +297,16 @@ func c30Gen(rng *rand.Rand, tier string) []Case {
 		ops := []string{"init " + c30ShowTags(cur)}
 		tags := map[string]bool{}
 		k := 3 + rng.Intn(8)
+		if tier == "thorough" && rng.Intn(12) == 0 {
+			k = 40 + rng.Intn(40)
+			tags["long-history"] = true
+		}
 		over, both := false, false
 		for j := 0; j < k; j++ {
+			if j > 0 && rng.Intn(10) == 0 {
+				ops = append(ops, "restart") // in the middle of a history: the agent comes back on its own tags file
+				tags["restart-mid-history"] = true
+			}
 			set := map[string]string{}
 			var del []string
 			for d := rng.Intn(3); d > 0; d-- {
